@@ -529,8 +529,8 @@ func c07ResetWriteSlowScenarios(full bool) []cwScenario {
 	var out []cwScenario
 	ds := []int64{300, 1000, 5000, 29900}
 	for ti, bt := range c07BaseTraces() {
-		if strings.Contains(bt.Name, "pingpong") {
-			// a RecvMsg PENDING at the cancellation: the stream loop's teardown holds the stream's mutex across the reset
+		if strings.Contains(bt.Name, "pingpong") || strings.Contains(bt.Name, "headers") {
+			// a RecvMsg (or Header()) PENDING at the cancellation: the stream loop's teardown holds the stream's mutex across the reset
 			// Write, the woken RecvMsg waits for that mutex (readErrorIfDone) until the Write has finished or given up
 			// (<= 30 s: bounded, see notes-cw "observation, round 8"); a goroutine waiting for a mutex stops the bubble's
 			// virtual clock, so the hold cannot be played here (the watchdog reports a wedge that real time would resolve)
